@@ -14,7 +14,7 @@ use crate::common::{write_file, Check, Codec, Entries, EntrySrc, Fail, FileSpec,
 use crate::fmtdec;
 use crate::gen::{self, Tier};
 use crate::model::{complete_alphabet, step_rel, Expect, Model, Op, Pos};
-use crate::rd::{self, COp, MemCursor};
+use crate::rd::{self, COp};
 use crate::runner::{stage, Obs, Prop, Stage};
 use crate::{ensure, fail};
 
